@@ -97,6 +97,8 @@ struct World<'a, SP: StorageProvider> {
     step: usize,
     uni: Universe,
     can_reopen: bool,
+    /// 2 = full universe after every op; 1 = at every structural op; 0 = at segment writes / perspective opens only
+    lvl: u8,
     committed: Option<(usize, HeadSet)>,
     st: Stats,
 }
@@ -140,7 +142,8 @@ impl<'a, SP: StorageProvider> World<'a, SP> {
         Ok(())
     }
 
-    fn fact(&mut self, o: &FOp, full: bool) -> CheckResult {
+    fn fact(&mut self, o: &FOp) -> CheckResult {
+        let full = self.lvl >= 2;
         self.ensure_live()?;
         self.step += 1;
         let step = self.step;
@@ -193,12 +196,14 @@ impl<'a, SP: StorageProvider> World<'a, SP> {
         self.st.segments += 1;
         self.segs.push(m);
         let si = self.segs.len() - 1;
-        self.verify_segment(si)?;
+        self.verify_segment(si, false)?;
         Ok(Some(si))
     }
 
     /// Facts of the stored segment and of every mid-segment reconstruction vs the model snapshots.
-    fn verify_segment(&mut self, si: usize) -> CheckResult {
+    /// `again` = a later re-read of a segment that was fully verified when written: the segment's
+    /// fact index and the mid-segment fact perspectives only.
+    fn verify_segment(&mut self, si: usize, again: bool) -> CheckResult {
         let n = self.segs[si].cmds.len();
         let first = self.segs[si].loc(0);
         {
@@ -209,20 +214,31 @@ impl<'a, SP: StorageProvider> World<'a, SP> {
             sw::check_all(&facts, &self.segs[si].cmds[n - 1].after, &self.uni, "segment fact index")?;
         }
         for j in 0..n {
+            if again && (j + 1 == n || self.lvl == 0) {
+                continue;
+            }
             let loc = self.segs[si].loc(j);
             let gid = self.gid;
             let storage = self.sp.as_mut().expect("provider").get_storage(gid).map_err(|e| serr("get_storage failed", e))?;
             let fp = storage.get_fact_perspective(loc).map_err(|e| serr("get_fact_perspective failed", e))?;
             let what = if j + 1 == n { "fact perspective at segment head" } else { "mid-segment fact perspective" };
             sw::check_all(&fp, &self.segs[si].cmds[j].after, &self.uni, what)?;
+            if j + 1 < n {
+                self.st.mid_checks += 1;
+            }
+            if again {
+                continue;
+            }
+            if j + 1 == n || self.lvl == 0 {
+                // at the head both constructors wrap the segment's own fact index: one is enough
+                // (the next perspective opened at this head is checked in full as well)
+                continue;
+            }
             let lp = storage.get_linear_perspective(loc).map_err(|e| serr("get_linear_perspective failed", e))?;
             let what = if j + 1 == n { "linear perspective at segment head" } else { "mid-segment linear perspective" };
             sw::check_all(&lp, &self.segs[si].cmds[j].after, &self.uni, what)?;
             let ha = lp.head_address().map_err(|e| serr("head_address failed", e))?;
             ensure!(ha == Prior::Single(self.segs[si].cmds[j].addr), "fresh perspective head address differs", "{ha:?} vs {:?}", self.segs[si].cmds[j].addr);
-            if j + 1 < n {
-                self.st.mid_checks += 1;
-            }
         }
         Ok(())
     }
@@ -391,17 +407,20 @@ impl<'a, SP: StorageProvider> World<'a, SP> {
             self.check_committed()?;
         }
         for si in 0..self.segs.len() {
-            self.verify_segment(si)?;
+            self.verify_segment(si, true)?;
         }
         Ok(())
     }
 
-    fn op(&mut self, o: &Op, full: bool) -> CheckResult {
+    fn op(&mut self, o: &Op) -> CheckResult {
         match o {
-            Op::Fact(f) => self.fact(f, full),
+            Op::Fact(f) => self.fact(f),
             Op::AddCmd => {
                 self.ensure_live()?;
                 self.add_cmd()?;
+                if self.lvl == 0 {
+                    return Ok(());
+                }
                 let live = self.live.as_ref().expect("live");
                 sw::check_all(&live.p, &live.cur, &self.uni, "live perspective")
             }
@@ -442,7 +461,7 @@ fn all_fops(c: &Case) -> impl Iterator<Item = &FOp> {
         }))
 }
 
-fn run_case<SP: StorageProvider>(mk: &dyn Fn() -> SP, can_reopen: bool, full: bool, c: &Case, info: &mut CaseInfo) -> CheckResult {
+fn run_case<SP: StorageProvider>(mk: &dyn Fn() -> SP, can_reopen: bool, lvl: u8, c: &Case, info: &mut CaseInfo) -> CheckResult {
     let uni = Universe::new(all_fops(c));
     let mut sp = mk();
     // ---- the init perspective (no prior facts: deletes leave no tombstones)
@@ -496,18 +515,19 @@ fn run_case<SP: StorageProvider>(mk: &dyn Fn() -> SP, can_reopen: bool, full: bo
         step,
         uni,
         can_reopen,
+        lvl,
         committed: Some((0, heads)),
         st: Stats::default(),
     };
     w.check_committed()?;
-    w.verify_segment(0)?;
+    w.verify_segment(0, false)?;
     for o in &c.ops {
-        w.op(o, full)?;
+        w.op(o)?;
     }
     // ---- end: write what is pending, then re-read everything ever stored
     w.flush()?;
     for si in 0..w.segs.len() {
-        w.verify_segment(si)?;
+        w.verify_segment(si, true)?;
     }
     w.check_committed()?;
 
@@ -558,8 +578,8 @@ fn run_case<SP: StorageProvider>(mk: &dyn Fn() -> SP, can_reopen: bool, full: bo
     Ok(())
 }
 
-fn check_mem(full: bool) -> impl Fn(&Case, &mut CaseInfo) -> CheckResult + Sync {
-    move |c, info| run_case(&|| LinearStorageProvider::new(Manager::new()), false, full, c, info)
+fn check_mem(lvl: u8) -> impl Fn(&Case, &mut CaseInfo) -> CheckResult + Sync {
+    move |c, info| run_case(&|| LinearStorageProvider::new(Manager::new()), false, lvl, c, info)
 }
 
 fn check_file(c: &Case, info: &mut CaseInfo) -> CheckResult {
@@ -569,7 +589,7 @@ fn check_file(c: &Case, info: &mut CaseInfo) -> CheckResult {
     let r = run_case(
         &|| LinearStorageProvider::new(FileManager::new(&path).expect("FileManager::new on a fresh temp dir")),
         true,
-        false,
+        0,
         c,
         info,
     );
@@ -600,15 +620,15 @@ fn general(maxops: usize) -> impl Strategy<Value = Case> {
 
 /// Long single ancestry lines: many rounds of (a few writes, maybe a command boundary, write the
 /// segment), with occasional branching to an older / mid-segment location.
-fn deep() -> impl Strategy<Value = Case> {
+fn deep(maxrounds: usize, ncomp: u8) -> impl Strategy<Value = Case> {
     let round = (
-        prop::collection::vec(sw::fop(2, 3, 2, 6), 1..4),
-        prop_oneof![3 => Just(None), 1 => prop::collection::vec(sw::fop(2, 3, 2, 6), 1..3).prop_map(Some)],
+        prop::collection::vec(sw::fop(2, ncomp, 2, 6), 1..4),
+        prop_oneof![3 => Just(None), 1 => prop::collection::vec(sw::fop(2, ncomp, 2, 6), 1..3).prop_map(Some)],
         prop::bool::weighted(0.2),
         prop_oneof![
             12 => Just(None),
             1 => any::<u16>().prop_map(|sel| Some(Op::Open { sel })),
-            1 => (any::<u16>(), prop::collection::vec(sw::fop(2, 3, 2, 6), 0..3), any::<u16>()).prop_map(|(at, ops, other)| Some(Op::Braid { at, ops, other })),
+            1 => (any::<u16>(), prop::collection::vec(sw::fop(2, ncomp, 2, 6), 0..3), any::<u16>()).prop_map(|(at, ops, other)| Some(Op::Braid { at, ops, other })),
         ],
     )
         .prop_map(|(a, b, commit, after)| {
@@ -621,7 +641,7 @@ fn deep() -> impl Strategy<Value = Case> {
             v.extend(after);
             v
         });
-    (prop::collection::vec(sw::fop(2, 3, 2, 1), 0..4), prop::collection::vec(round, 18..44))
+    (prop::collection::vec(sw::fop(2, ncomp, 2, 1), 0..4), prop::collection::vec(round, 18..maxrounds))
         .prop_map(|(init, rounds)| Case { init, init_extra: Vec::new(), ops: rounds.into_iter().flatten().collect() })
 }
 
@@ -642,7 +662,7 @@ pub fn run(ctx: &Ctx) -> ! {
         &format!("in-memory LinearStorageProvider: init perspective + 0..30 ops (fact insert/delete incl. live keys, add_command, write segment [+commit], open linear perspective at any stored command, fact perspective + write_facts + merge perspective, commit+re-verify); after EVERY op all exact/prefix queries of the case's key universe on the live perspective, after every segment write on segment.facts() and on get_fact_perspective/get_linear_perspective at every command of it, at the end on everything stored; {rule}"),
         || general(30),
         ctx.pick(600, 15_000),
-        check_mem(true),
+        check_mem(2),
     );
     tm("mem_every_step");
     rep.explore(
@@ -650,29 +670,29 @@ pub fn run(ctx: &Ctx) -> ! {
         &format!("same with 0..70 ops; after a fact write only the written key and its prefixes are re-queried, the full universe at every command boundary / segment write / perspective open; {rule}"),
         || general(70),
         ctx.pick(1_000, 25_000),
-        check_mem(false),
+        check_mem(1),
     );
     tm("mem_general");
     rep.explore(
         "mem_deep_chain",
-        &format!("in-memory: 18..43 rounds of (1-3 writes biased to live keys, optional command boundary, write segment, sometimes branch/braid) => fact index chains past MAX_FACT_INDEX_DEPTH=16; {rule}"),
-        deep,
+        &format!("in-memory: 18..37 rounds of (1-3 writes biased to live keys, optional command boundary, write segment, sometimes branch/braid) => fact index chains past MAX_FACT_INDEX_DEPTH=16; {rule}"),
+        || deep(38, 3),
         ctx.pick(300, 7_500),
-        check_mem(false),
+        check_mem(1),
     );
     tm("mem_deep_chain");
     rep.explore(
         "file_general",
-        &format!("same op language on LinearStorageProvider<FileManager> in a fresh temp dir (Reopen really drops the provider and reopens the graph file); {rule}"),
-        || general(70),
+        &format!("same op language (0..40 ops) on LinearStorageProvider<FileManager> in a fresh temp dir (Reopen really drops the provider and reopens the graph file); full-universe checks on every written segment (fact index, mid-segment fact perspectives), every opened perspective, every commit and at the end; {rule}"),
+        || general(40),
         ctx.pick(150, 3_000),
         check_file,
     );
     tm("file_general");
     rep.explore(
         "file_deep_chain",
-        &format!("deep-chain generator on the file backend; {rule}"),
-        deep,
+        &format!("deep-chain generator (18..23 rounds, 2 key components) on the file backend; {rule}"),
+        || deep(24, 2),
         ctx.pick(50, 1_000),
         check_file,
     );
